@@ -7,12 +7,13 @@ package lib
 import (
 	"context"
 	"fmt"
-	golog "log"
 	"io"
+	golog "log"
 	"net"
 	"sort"
 	"strings"
 	"sync/atomic"
+	"time"
 
 	"github.com/BurntSushi/toml"
 	"github.com/go-redis/redis/v8"
@@ -77,7 +78,9 @@ func VerifSetRedis(dial func() (net.Conn, error)) {
 func (rm *RegistrationManager) VerifCleanup() { rm.Cleanup() }
 
 // VerifTimeoutCount returns the number of timeout records.
-func (rm *RegistrationManager) VerifTimeoutCount() int { return len(rm.registeredDecoys.decoysTimeouts) }
+func (rm *RegistrationManager) VerifTimeoutCount() int {
+	return len(rm.registeredDecoys.decoysTimeouts)
+}
 
 // VerifTotal returns the number of tracked registrations.
 func (rm *RegistrationManager) VerifTotal() int { return rm.registeredDecoys.totalRegistrations() }
@@ -205,4 +208,18 @@ func (rm *RegistrationManager) VerifCountDetector(news, updates *int64) {
 }
 
 // VerifTotalLocked is what the statistics printer calls.
-func (rm *RegistrationManager) VerifTotalLocked() int { return rm.registeredDecoys.TotalRegistrations() }
+func (rm *RegistrationManager) VerifTotalLocked() int {
+	return rm.registeredDecoys.TotalRegistrations()
+}
+
+// VerifDumpAges renders the age (whole seconds at the given instant) of every timeout record: part of the
+// implementation state that decides future sweeps, so BFS state keys must see it.
+func (rm *RegistrationManager) VerifDumpAges(now time.Time) string {
+	r := rm.registeredDecoys
+	var lines []string
+	for _, t := range r.decoysTimeouts {
+		lines = append(lines, fmt.Sprintf("A %s %x age=%d", t.decoy, t.identifier[:4], int64(now.Sub(t.registrationTime)/time.Second)))
+	}
+	sort.Strings(lines)
+	return strings.Join(lines, "\n")
+}
